@@ -12,7 +12,8 @@ Ids == 0..(N-1)
 KidSeqs == UNION {[1..k -> Ids] : k \in 0..MaxKids}
 W(t, k) == (t + k) % 6                     \* wrapper of the k-th child edge of node t
 SpOf(t, ks, k) == [t |-> ks[k], w |-> W(t, k)]
-InfoOf(t, ks) == ShapeBody(t, [k \in 1..Len(ks) |-> SpOf(t, ks, k)])
+Sel(t, ks) == t + (IF Len(ks) >= 1 THEN ks[1] ELSE 0) + (IF Len(ks) >= 2 THEN 2 * ks[2] ELSE 0)
+InfoOf(t, ks) == ShapeBody(t, [k \in 1..Len(ks) |-> SpOf(t, ks, k)], Sel(t, ks))
 PhantomInfo == [path |-> <<"PhantomData">>, params |-> <<>>, def |-> [tag |-> "composite", fields |-> <<>>],
                 docs |-> <<"PhantomData placeholder, this type should be filtered out">>]
 UniverseOf(kids) == [t \in 0..N |-> IF t = N THEN PhantomInfo ELSE InfoOf(t, kids[t])]
